@@ -25,6 +25,25 @@ fn is_boundary(v: u32) -> bool {
         || v.wrapping_sub(1).is_power_of_two()
 }
 
+/// A reader that hands out its bytes in pieces of the given sizes (then one byte at a time): the
+/// bytes are all "present", only not in one `read` call.
+struct Pieces<'a> {
+    data: &'a [u8],
+    sizes: [u8; 2],
+    call: usize,
+}
+
+impl std::io::Read for Pieces<'_> {
+    fn read(&mut self, buf: &mut [u8]) -> std::io::Result<usize> {
+        let want = self.sizes.get(self.call).copied().unwrap_or(1).max(1) as usize;
+        self.call += 1;
+        let n = want.min(buf.len()).min(self.data.len());
+        buf[..n].copy_from_slice(&self.data[..n]);
+        self.data = &self.data[n..];
+        Ok(n)
+    }
+}
+
 /// value -> write -> read, exact bytes, exact consumption.
 fn test_value(v: &u32) -> TestResult {
     let v = *v;
@@ -64,6 +83,19 @@ fn test_value(v: &u32) -> TestResult {
         Ok(back) => vensure!(u32::from(back) == v && r.is_empty(), "c15-roundtrip", "exact-length read of {v} gave {} with {} bytes left", u32::from(back), r.len()),
         Err(e) => vfail!("c15-read", "exact-length read of encoded {v} failed: {e}"),
     }
+    // Decode through readers that deliver the (present) bytes in several calls.
+    if written == 4 {
+        for sizes in [[1u8, 1], [2, 2], [3, 1], [1, 3]] {
+            let mut r = Pieces { data: &buf[..], sizes, call: 0 };
+            match VarInt::read(&mut r) {
+                Ok(back) => {
+                    vensure!(u32::from(back) == v, "c15-roundtrip", "read of {v} through a reader delivering {sizes:?}-byte pieces gave {}", u32::from(back));
+                    vensure!(8 - r.data.len() == 4, "c15-consumed", "read of {v} through a piecewise reader consumed {} bytes", 8 - r.data.len());
+                },
+                Err(e) => vfail!("c15-read", "read of encoded {v} failed ({e}) when the reader delivered its bytes in pieces of {sizes:?}: all four bytes are present"),
+            }
+        }
+    }
     Ok(Outcome::new(v >= 128 || is_boundary(v)))
 }
 
@@ -84,6 +116,12 @@ fn test_tryfrom(v: &u32) -> TestResult {
     if let Ok(x) = ru {
         vensure!(u32::from(x) == v, "c15-tryfrom", "VarInt::try_from({v}usize) holds {}", u32::from(x));
         vensure!(usize::try_from(x).ok() == Some(v as usize), "c15-tryfrom", "usize::try_from(VarInt({v})) wrong");
+    }
+    // integers beyond 32 bits whose low half looks harmless
+    #[cfg(target_pointer_width = "64")]
+    for k in [1usize, 2, 0x7fff_ffff, 0xffff_ffff] {
+        let big = (v as usize).wrapping_add(k << 32);
+        vensure!(VarInt::try_from(big).is_err(), "c15-range", "VarInt::try_from({big}usize) succeeded for an out-of-range value (low 32 bits {v})");
     }
     Ok(Outcome::new(true))
 }
@@ -120,6 +158,11 @@ fn test_decode(e: &Enc) -> TestResult {
             Err(er) => vfail!("c15-decode", "read({data:02x?}) failed ({er}) although the {need} announced bytes are present"),
         }
     } else {
+        let mut pr = Pieces { data, sizes: [1, 1], call: 0 };
+        match VarInt::read(&mut pr) {
+            Ok(v) => vfail!("c15-truncated", "piecewise read({data:02x?}) returned {} although only {} of {need} bytes are present", u32::from(v), data.len()),
+            Err(er) => vensure!(er.kind() == ErrorKind::UnexpectedEof, "c15-truncated", "piecewise read({data:02x?}) failed with {:?}, expected UnexpectedEof", er.kind()),
+        }
         match res {
             Ok(v) => vfail!("c15-truncated", "read({data:02x?}) returned {} although only {} of {need} bytes are present", u32::from(v), data.len()),
             Err(er) => vensure!(er.kind() == ErrorKind::UnexpectedEof, "c15-truncated", "read({data:02x?}) failed with {:?}, expected UnexpectedEof", er.kind()),
